@@ -1185,7 +1185,12 @@ fn script_session(rng: &mut Rng, tier: Tier, f: &mut dyn FnMut(&str) -> String) 
     if rng.chance(1, 2) {
         // the clients leave one after the other with their own Disconnect datagram; the table must follow
         let order: [usize; 2] = if rng.chance(1, 2) { [0, 1] } else { [1, 0] };
-        for i in order {
+        let newcomers = rng.chance(1, 2);
+        for (n, i) in order.into_iter().enumerate() {
+            if newcomers {
+                // the last payload the server generated is one for the client that is about to leave
+                sc.op(&format!("srv-pay 0 {} 6c617374", cls[i].tok.spec.id));
+            }
             if let (_, Some(k)) = sc.opd(&format!("cli-disc {}", cls[i].h)) {
                 let d = sc.hist[k].bytes.clone();
                 sc.op(&format!("srv-rx 0 {} {}", cls[i].addr, hex(&d)));
@@ -1193,6 +1198,21 @@ fn script_session(rng: &mut Rng, tier: Tier, f: &mut dyn FnMut(&str) -> String) 
             sc.op("srv-dump 0");
             for j in 0..2 {
                 sc.op(&format!("srv-q 0 {}", cls[j].tok.spec.id));
+            }
+            if newcomers {
+                // a newcomer is seated (in the slot that has just become free); then a payload is requested for the
+                // id that left: there is no such client any more
+                let mut spec = base_spec(rng, 510 + n as u64, srv.proto, srv.key, now_s, &srv.addrs.join(","));
+                spec.expire = now_s + 60;
+                spec.seal_expire = spec.expire;
+                let addr = a4(10, 1, 1, 1 + n as u8, 4150 + n as u16);
+                // (the server's clock: now0 + what the script advanced; a client created "now" in its own time)
+                if let Some(c) = new_client(&mut sc, 2 + n as u64, &addr, &spec, srv.now_us) {
+                    fast_connect(&mut sc, &c);
+                }
+                sc.op("srv-dump 0");
+                sc.op(&format!("srv-pay 0 {} 676f6e65", cls[i].tok.spec.id));
+                sc.op(&format!("srv-pay 0 {} 6869", 510 + n as u64));
             }
             let other = 1 - i;
             sc.op(&format!("srv-pay 0 {} 77", cls[other].tok.spec.id));
@@ -1376,7 +1396,7 @@ fn forged_request(rng: &mut Rng, genuine: &[u8], proto: u64, now_s: u64) -> Vec<
 
 fn script_attacker(rng: &mut Rng, _tier: Tier, f: &mut dyn FnMut(&str) -> String) {
     let mut sc = Sc::new(f);
-    let scenario = rng.below(15);
+    let scenario = rng.below(17);
     let max = match scenario {
         3 => 1,
         6 | 9 | 10 => rng.pick(&[1usize, 2]),
@@ -1404,7 +1424,7 @@ fn script_attacker(rng: &mut Rng, _tier: Tier, f: &mut dyn FnMut(&str) -> String
         spec.timeout = 5;
         specs.push(spec);
     }
-    if scenario == 2 || scenario == 7 || scenario == 11 || scenario == 12 || (scenario == 13 && rng.chance(1, 2)) {
+    if scenario == 2 || scenario == 7 || scenario == 11 || scenario == 12 || scenario == 15 || (scenario == 13 && rng.chance(1, 2)) {
         specs[1].id = specs[0].id; // two tokens for one id
     }
     if scenario == 14 {
@@ -1512,7 +1532,18 @@ fn script_attacker(rng: &mut Rng, _tier: Tier, f: &mut dyn FnMut(&str) -> String
             sc.op("srv-dump 0");
             let order: [usize; 2] = if rng.chance(1, 2) { [0, 1] } else { [1, 0] };
             let chs = [ch0, ch1];
-            for i in order {
+            // a third party sits in a slot in FRONT of the winner and leaves before the loser answers: a hole there
+            let hole = rng.chance(1, 2);
+            if hole {
+                if let (_, Some(ch)) = srv_rx(&mut sc, &a[2], &reqs[2]) {
+                    answer_challenge(&mut sc, 2, &a[2], &ch, None);
+                }
+            }
+            for (n, i) in order.into_iter().enumerate() {
+                if hole && n == 1 {
+                    sc.op(&format!("srv-disc 0 {}", cls[2].tok.spec.id));
+                    sc.op("srv-dump 0");
+                }
                 if let Some(ch) = &chs[i] {
                     sc.op(&format!("cli-rx {} {}", i, hex(ch)));
                     if let (_, Some(k)) = sc.opd(&format!("cli-upd {} 0", i)) {
@@ -1964,6 +1995,95 @@ fn script_attacker(rng: &mut Rng, _tier: Tier, f: &mut dyn FnMut(&str) -> String
                 sc.op("srv-dump 0");
             }
             sc.op(&format!("srv-q 0 {}", cls[2].tok.spec.id));
+        }
+        15 => {
+            // P sits in slot 0; devices A and B of ONE client id are both challenged; A answers and is seated behind P;
+            // P leaves (by its Disconnect datagram, a kick, or a time-out) — a hole in FRONT of A — and only then B's
+            // response arrives: the id is connected, B gets nothing
+            if let (_, Some(ch)) = srv_rx(&mut sc, &a[2], &reqs[2]) {
+                answer_challenge(&mut sc, 2, &a[2], &ch, None);
+            }
+            let (_, ch_a) = srv_rx(&mut sc, &a[0], &reqs[0]);
+            let (_, ch_b) = srv_rx(&mut sc, &a[1], &reqs[1]);
+            let (w, l) = if rng.chance(1, 2) { (0usize, 1usize) } else { (1, 0) };
+            let chs = [ch_a, ch_b];
+            if let Some(ch) = &chs[w] {
+                answer_challenge(&mut sc, w as u64, &a[w], ch, None);
+            }
+            sc.op("srv-dump 0");
+            match rng.below(3) {
+                0 => {
+                    sc.op(&format!("srv-disc 0 {}", cls[2].tok.spec.id));
+                }
+                1 => {
+                    if let (_, Some(k)) = sc.opd("cli-disc 2") {
+                        let d = sc.hist[k].bytes.clone();
+                        srv_rx(&mut sc, &a[2], &d);
+                    }
+                }
+                _ => {
+                    // the winner stays alive, P times out (token timeout 5 s)
+                    sc.op("srv-upd 0 4000000");
+                    if let (_, Some(k)) = sc.opd(&format!("cli-upd {} 4000000", w)) {
+                        let d = sc.hist[k].bytes.clone();
+                        srv_rx(&mut sc, &a[w], &d);
+                    }
+                    sc.op("srv-upd 0 1100000");
+                    sc.op(&format!("srv-updc 0 {}", cls[2].tok.spec.id));
+                }
+            }
+            sc.op("srv-dump 0");
+            if let Some(ch) = &chs[l] {
+                answer_challenge(&mut sc, l as u64, &a[l], ch, None);
+            }
+            sc.op("srv-dump 0");
+            sc.op(&format!("srv-q 0 {}", cls[0].tok.spec.id));
+            sc.op(&format!("srv-pay 0 {} 6f6b", cls[0].tok.spec.id));
+            sc.op(&format!("srv-updc 0 {}", cls[0].tok.spec.id));
+        }
+        16 => {
+            // payload routing after slot reuse: X is sent a payload, X leaves (own Disconnect datagram / kick /
+            // time-out), a newcomer is seated in the slot X freed, then a payload is requested for X again
+            let mut prev: Option<usize> = None;
+            for i in 0..3usize {
+                if let (_, Some(ch)) = srv_rx(&mut sc, &a[i], &reqs[i]) {
+                    answer_challenge(&mut sc, i as u64, &a[i], &ch, None);
+                }
+                sc.op("srv-dump 0");
+                if let Some(p) = prev {
+                    // the departed one first, before any other id is served
+                    sc.op(&format!("srv-pay 0 {} 676f6e65", cls[p].tok.spec.id));
+                }
+                let (_, e) = sc.opd(&format!("srv-pay 0 {} {}", cls[i].tok.spec.id, hex(&rng.payload(5))));
+                if let Some(k) = e {
+                    let d = sc.hist[k].bytes.clone();
+                    sc.op(&format!("cli-rx {} {}", i, hex(&d)));
+                }
+                if i == 2 {
+                    break;
+                }
+                match rng.below(4) {
+                    0 => {
+                        sc.op(&format!("srv-disc 0 {}", cls[i].tok.spec.id));
+                    }
+                    1 => {
+                        sc.op("srv-upd 0 5000001");
+                        sc.op(&format!("srv-updc 0 {}", cls[i].tok.spec.id));
+                    }
+                    _ => {
+                        if let (_, Some(k)) = sc.opd(&format!("cli-disc {}", i)) {
+                            let d = sc.hist[k].bytes.clone();
+                            srv_rx(&mut sc, &a[i], &d);
+                        }
+                    }
+                }
+                sc.op(&format!("srv-pay 0 {} 00", cls[i].tok.spec.id));
+                prev = Some(i);
+            }
+            for i in 0..3usize {
+                sc.op(&format!("srv-pay 0 {} 656e64", cls[i].tok.spec.id));
+                sc.op(&format!("srv-q 0 {}", cls[i].tok.spec.id));
+            }
         }
         4 => {
             // connected session 0; the attacker (owner of session 1) injects packets sealed with its own
@@ -2566,7 +2686,7 @@ fn script_wire(rng: &mut Rng, tier: Tier, f: &mut dyn FnMut(&str) -> String) {
 // profile 0: nc-regress — one fixed op list per repaired defect (deterministic, run on every check)
 // =============================================================================================
 
-const REGRESS_CASES: usize = 32;
+const REGRESS_CASES: usize = 34;
 
 fn regress_script(case: usize, f: &mut dyn FnMut(&str) -> String) {
     let mut rng = Rng::new(0xD1CE + case as u64);
@@ -3505,6 +3625,65 @@ fn regress_script(case: usize, f: &mut dyn FnMut(&str) -> String) {
                 sc.op(&format!("srv-q 0 {}", cls[i].tok.spec.id));
             }
             sc.op("srv-dump 0");
+        }
+        // P in slot 0; devices A and B of client id 40 both challenged; A is seated in slot 1; P leaves (a hole in front
+        // of A); B's response arrives: id 40 stays connected once
+        32 => {
+            let mut spec = base_spec(rng, 40, proto, key, 5, &hosts); // same client id as cls[0]
+            spec.expire = 35;
+            spec.seal_expire = 35;
+            spec.ud = vec![0xb1; 256];
+            let b = a4(10, 9, 0, 90, 4990);
+            if let Some(cb) = new_client(&mut sc, 5, &b, &spec, 5_000_000) {
+                fast_connect(&mut sc, &cls[1]); // P, slot 0
+                let mut chal: Vec<(u64, String, Vec<u8>)> = vec![];
+                for (h, a) in [(0u64, cls[0].addr.clone()), (5, cb.addr.clone())] {
+                    if let (_, Some(k)) = sc.opd(&format!("cli-upd {} 0", h)) {
+                        let req = sc.hist[k].bytes.clone();
+                        if let (_, Some(k)) = sc.opd(&format!("srv-rx 0 {} {}", a, hex(&req))) {
+                            chal.push((h, a, sc.hist[k].bytes.clone()));
+                        }
+                    }
+                }
+                if chal.len() == 2 {
+                    answer_challenge(&mut sc, chal[0].0, &chal[0].1.clone(), &chal[0].2.clone(), Some("expect-connected"));
+                    sc.op("srv-dump 0");
+                    if let (_, Some(k)) = sc.opd("cli-disc 1") {
+                        let d = sc.hist[k].bytes.clone();
+                        sc.op(&format!("srv-rx 0 {} {}", cls[1].addr, hex(&d)));
+                    }
+                    sc.op("srv-dump 0");
+                    answer_challenge(&mut sc, chal[1].0, &chal[1].1.clone(), &chal[1].2.clone(), None);
+                    sc.op("srv-dump 0");
+                    sc.op("srv-q 0 40");
+                    sc.op("srv-pay 0 40 6f6b");
+                }
+            }
+        }
+        // payload routing after slot reuse: the last payload was for client 40, which leaves by its own Disconnect
+        // datagram; client 41 is seated in the slot it freed; a payload for 40 finds no client
+        33 => {
+            fast_connect(&mut sc, &cls[0]);
+            if let (_, Some(k)) = sc.opd("srv-pay 0 40 6c617374") {
+                let d = sc.hist[k].bytes.clone();
+                sc.op("note expect-payload");
+                sc.op(&format!("cli-rx 0 {}", hex(&d)));
+            }
+            if let (_, Some(k)) = sc.opd("cli-disc 0") {
+                let d = sc.hist[k].bytes.clone();
+                sc.op(&format!("srv-rx 0 {} {}", cls[0].addr, hex(&d)));
+            }
+            sc.op("srv-dump 0");
+            fast_connect(&mut sc, &cls[1]);
+            sc.op("srv-dump 0");
+            if let (_, Some(k)) = sc.opd("srv-pay 0 40 676f6e65") {
+                // (whoever it is addressed to receives it)
+                let d = sc.hist[k].bytes.clone();
+                sc.op(&format!("cli-rx 1 {}", hex(&d)));
+            }
+            sc.op("srv-pay 0 41 6869");
+            sc.op("srv-q 0 40");
+            sc.op("srv-q 0 41");
         }
         // sequence 2^64-1 (the window's EMPTY sentinel) from the owner of a session
         _ => {
@@ -4766,6 +4945,8 @@ fn oracle_table(ops: &[String], outs: &[String]) -> Option<OracleFail> {
     let mut connected: HashMap<String, HashSet<u64>> = HashMap::new();
     // (server, id) -> (address, first 8 bytes of the user data) reported by the `connected` event of the live session
     let mut how: HashMap<(String, u64), (String, String)> = HashMap::new();
+    let mut protos: HashMap<String, u64> = HashMap::new();
+    let mut tokens: Option<Vec<TokInfo>> = None;
     for i in 0..ops.len().min(outs.len()) {
         let t = toks(&ops[i]);
         if t.len() < 2 {
@@ -4775,6 +4956,9 @@ fn oracle_table(ops: &[String], outs: &[String]) -> Option<OracleFail> {
         match t[0] {
             "srv-new" if t.len() >= 4 => {
                 if outs[i] == "ok" {
+                    if t.len() >= 5 {
+                        protos.insert(s.clone(), p_u64(t[4]).unwrap_or(0));
+                    }
                     cur_max.insert(s.clone(), p_u64(t[3]).unwrap_or(0));
                     lowered.insert(s.clone(), false);
                     connected.insert(s.clone(), HashSet::new());
@@ -4877,6 +5061,21 @@ fn oracle_table(ops: &[String], outs: &[String]) -> Option<OracleFail> {
                     let o = &outs[i];
                     if (o == "err:ClientNotFound" && c.contains(&id)) || (o.starts_with("send ") && !c.contains(&id)) {
                         return fail(i, "lookup-mismatch", format!("generate_payload_packet({}) answered `{}` but the events say connected = {}", id, trunc_s(o, 30), c.contains(&id)));
+                    }
+                    // payload routing refers to the session that was authenticated for that id: the datagram goes to that
+                    // session's address and is sealed under a server-to-client key of a token issued for that id
+                    if let (Some((to, d)), Some((a, _))) = (emitted_of(&ops[i], o), how.get(&(s.clone(), id))) {
+                        if to != *a {
+                            return fail(i, "payload-misrouted", format!("the payload for client {} (connected from {}) was addressed to {}", id, a, to));
+                        }
+                        if let Some(proto) = protos.get(&s) {
+                            let toks_all = tokens.get_or_insert_with(|| tokens_of(ops, outs, ops.len()));
+                            let mine = toks_all.iter().any(|k| k.id == id && matches!(try_open(&d, *proto, &k.s2c), Some((5, _, _))));
+                            let other = toks_all.iter().find(|k| k.id != id && matches!(try_open(&d, *proto, &k.s2c), Some((5, _, _))));
+                            if let (false, Some(k)) = (mine, other) {
+                                return fail(i, "payload-misrouted", format!("the payload for client {} was sealed under the key of client {}'s token", id, k.id));
+                            }
+                        }
                     }
                 }
             }
